@@ -273,4 +273,11 @@ def pydantic_parse(ns, root_name, sample):
 
 def run_library(inputs, registry, cmps, job, dict_fields=(), dict_regex=()):
     reg, gen = stages.build_registry(inputs, registry, cmps, dict_fields, dict_regex)
+    if job.get("renderFirst"):
+        # the registry has been rendered once before, in the other layout (a library user may emit both): the text under
+        # test is the second rendering
+        try:
+            stages.render_impl(reg, dict(job, layout=job["renderFirst"]))
+        except Exception:  # noqa
+            pass
     return reg, stages.render_impl(reg, job)
